@@ -253,7 +253,7 @@ def ops_only(h):
     return [l for l, m in zip(h.lines, h.meta) if m is not None]
 
 
-def shrink(exe, d, h, key, maxbytes, budget=12):
+def shrink(exe, d, h, key, maxbytes, budget=80):
     """delta debugging: drop lines while real and twin still differ with the same key"""
     cur = h
     for _ in range(budget):
